@@ -60,10 +60,12 @@ def run(ctx):
         for prog in progs:
             th = [str(i) for i in range(prog.count('/') + 1)]
             for v in th:
-                for k in range(0, 36 if ctx.quick() else 80, 2 if ctx.quick() else 1):
+                for k in range(0, 30 if ctx.quick() else 80):
                     others = [t for t in th if t != v]
                     # the others run k steps round robin (frozen mid-operation), then v alone for up to three operations
                     cases.append((prog, ''.join(others[i % len(others)] for i in range(k)) + '}' + v + '}' + v + '}' + v))
+                    # the same with every store of the others flushed at once (so that what they completed is visible to v)
+                    cases.append((prog, ''.join(others[i % len(others)] + chr(ord('a') + int(others[i % len(others)])) for i in range(k)) + '}' + v + '}' + v + '}' + v))
         while len(cases) < n + len(progs) * 40:
             prog = ctx.rng.choice(progs); th = [str(i) for i in range(prog.count('/') + 1)]; v = ctx.rng.choice(th)
             cases.append((prog, bursty(ctx.rng, th, lo=5, hi=120, means=(1, 2, 5, 12)) + '}' + v + '}' + v))
